@@ -190,14 +190,14 @@ func direction(real byte) string {
 	return "miss"
 }
 
-func stageSites(rep *lib.Report) []cidT {
-	r := lib.Rand("c04-sites")
+func stageSites(rep *lib.Report, round int) []cidT {
+	r := lib.Rand(fmt.Sprintf("c04-sites-%d", round))
 	nRun, nSpecs := 12, 260
 	if lib.Thorough() {
-		nRun, nSpecs = 60, 900
+		nRun, nSpecs = 40, 700
 	}
 	gp := genProgram(r, nRun)
-	dir := lib.WorkDir(prop, "sites")
+	dir := lib.WorkDir(prop, fmt.Sprintf("sites%d", round))
 	lib.WriteProgram(dir, gp.mod, gp.files)
 	prog, pkgs, err := lib.LoadSSA(dir, ssa.InstantiateGenerics, false, "./...")
 	if err != nil {
@@ -819,16 +819,21 @@ func stageSites(rep *lib.Report) []cidT {
 			judge("sink-arg", ap.call.site, where, sp, real, parts[1][j], truth, dom, reason, "main.go")
 		}
 	}
-	rep.Extra["sites_call_argument_nodes"] = len(apairs)
-	rep.Extra["sites_calls"] = len(calls)
-	rep.Extra["sites_generated"] = len(gp.sites)
-	rep.Extra["sites_callee_pairs"] = len(pairsL)
-	rep.Extra["sites_locations"] = len(nodes)
-	rep.Extra["sites_specs"] = len(specs)
-	rep.Extra["sites_in_proved_domain"] = inDom
-	rep.Extra["sites_outside_proved_domain"] = outside
-	rep.Extra["sites_known_shape_disagreements"] = knownShape
-	rep.Extra["sites_mismatches"] = mism
+	addExtra := func(k string, v int) {
+		old, _ := rep.Extra[k].(int)
+		rep.Extra[k] = old + v
+	}
+	addExtra("sites_programs", 1)
+	addExtra("sites_call_argument_nodes", len(apairs))
+	addExtra("sites_calls", len(calls))
+	addExtra("sites_generated", len(gp.sites))
+	addExtra("sites_callee_pairs", len(pairsL))
+	addExtra("sites_locations", len(nodes))
+	addExtra("sites_specs", len(specs))
+	addExtra("sites_in_proved_domain", inDom)
+	addExtra("sites_outside_proved_domain", outside)
+	addExtra("sites_known_shape_disagreements", knownShape)
+	addExtra("sites_mismatches", mism)
 	rep.Sample(map[string]any{"stage": "sites", "module": gp.mod, "site": fmt.Sprintf("%+v", *gp.sites[len(gp.sites)/2]), "spec": specs[0].c.String()})
 
 	// identifiers seen in the real program also feed the matrix stage
